@@ -75,6 +75,7 @@ import (
 	"fmt"
 	"go/types"
 	"strings"
+	"unicode"
 
 	"github.com/awalterschulze/goderive/derive"
 )
@@ -274,7 +275,16 @@ func wrap(value string) string {
 
 func prepend(before, after string) string {
 	bs := strings.Split(before, ".")
-	b := strings.Replace(bs[0], "*", "", -1)
+	// before can be any expression, for example an unsafe cast of a private field: keep only identifier characters.
+	b := strings.Map(func(r rune) rune {
+		if unicode.IsLetter(r) || unicode.IsDigit(r) || r == '_' {
+			return r
+		}
+		return -1
+	}, bs[0])
+	if len(b) == 0 || unicode.IsDigit(rune(b[0])) {
+		b = "v" + b
+	}
 	return b + "_" + after
 }
 
